@@ -8,6 +8,8 @@
 import GeoModel.ValidationSpec
 import GeoProofs.Lemmas.C14Visit
 import GeoProofs.Lemmas.C14Flat
+import GeoProofs.Lemmas.C14PRing
+import GeoProofs.Lemmas.C14PPairs
 import Mathlib.Tactic.Ring
 
 namespace Geo.Proofs.C14
@@ -461,17 +463,9 @@ theorem flat_ring_polygon_invalid (o : Oracle) (a b c : Pt) (hab : a ≠ b) (hbc
   rw [h] at hmem
   simp at hmem
 
-/-! ## 5. What the pairwise segment test reports, pair by pair (ring-local)
-
-`selfIntersection_iff` of DESIGN §7 (`hasSelfIntersection r = false ↔ ringSimple r` for rings of at
-least 4 coordinates) is NOT proved here; what is proved is the exact meaning of the loop, pair by
-pair, and the F8 class in full (§4). The equivalence with `ringSimple` is exercised on every
-generated ring by the correspondence (clauses `false-accept:ring-not-simple`,
-`false-reject:PG.SelfInt`, `error-names-no-such-defect:PG.SelfInt`).
--- full statement kept for the record:
--- theorem selfIntersection_iff (r : List Pt) (h4 : (dedupConsecutive r).length ≥ 4) :
---     hasSelfIntersection r = false ↔ ringSimple r = true
--/
+/-! ## 5. What the pairwise segment test reports, pair by pair (ring-local), and the loop against
+the specification's `ringSimple` (`selfIntersection_iff`, §5b below; helper lemmas in
+GeoProofs/Lemmas/C14PGeom.lean and C14PRing.lean). -/
 
 /-- [T] the double loop fires exactly when some ordered pair of distinct segments is `pairBad` -/
 theorem selfIntersection_iff_pair (r : List Pt) :
@@ -515,6 +509,160 @@ theorem chained_pair_flagged_iff (a b c : Pt) (hab : a ≠ b) (hbc : b ≠ c) :
 example : pairBad (⟨0, 0⟩, ⟨2, 0⟩) (⟨2, 0⟩, ⟨1, 0⟩) = true :=
   (chained_pair_flagged_iff ⟨0, 0⟩ ⟨2, 0⟩ ⟨1, 0⟩ (by decide) (by decide)).mpr
     ⟨by simp [orient, cross], by simp [sameSide]⟩
+
+/-! ## 5b. The loop against the specification (`ringSimple`) -/
+
+private theorem notFinite_ofPt (p : Pt) : notFinite (XPt.ofPt p) = false := by
+  simp [notFinite, XPt.ofPt, XNum.isFinite]
+
+/-- [T] per-pair class "consecutive segments", point-set meaning of the implementation's test:
+two consecutive segments `a→b`, `b→c` of positive length are flagged (in either operand order —
+the loop visits both) exactly when they share a point other than the common vertex `b`. -/
+theorem chained_pair_flagged_iff_common_point (a b c : Pt) (hab : a ≠ b) (hbc : b ≠ c) :
+    (pairBad (a, b) (b, c) = true ↔ ∃ z, z ≠ b ∧ Kernel.SegMem z a b ∧ Kernel.SegMem z b c) ∧
+    (pairBad (b, c) (a, b) = true ↔ ∃ z, z ≠ b ∧ Kernel.SegMem z a b ∧ Kernel.SegMem z b c) :=
+  ⟨C14P.pairBad_fwd a b c hab hbc, C14P.pairBad_bwd a b c hab hbc⟩
+
+example : pairBad (⟨2, 0⟩, ⟨1, 0⟩) (⟨0, 0⟩, ⟨2, 0⟩) = true :=
+  (chained_pair_flagged_iff_common_point ⟨0, 0⟩ ⟨2, 0⟩ ⟨1, 0⟩ (by decide +kernel) (by decide +kernel)).2.mpr
+    ⟨⟨1, 0⟩, by decide +kernel, ⟨1/2, by norm_num, by norm_num, by norm_num, by norm_num⟩,
+      ⟨1, by norm_num, by norm_num, by norm_num, by norm_num⟩⟩
+
+/-- [T] per-pair class "consecutive segments", point-set meaning of the specification's test:
+`adjacentOk` (`line_intersection` answers the single point `b`) holds exactly when `b` is the only
+common point of the two segments. -/
+theorem adjacentOk_iff_single_common_point (a b c : Pt) (hab : a ≠ b) (hbc : b ≠ c) :
+    adjacentOk (a, b) (b, c) b = true ↔ ¬ ∃ z, z ≠ b ∧ Kernel.SegMem z a b ∧ Kernel.SegMem z b c :=
+  C14P.adjacentOk_iff a b c hab hbc
+
+example : adjacentOk (⟨0, 0⟩, ⟨2, 0⟩) (⟨2, 0⟩, ⟨1, 0⟩) ⟨2, 0⟩ = false := by
+  rw [← Bool.not_eq_true, adjacentOk_iff_single_common_point _ _ _ (by decide +kernel) (by decide +kernel),
+    not_not]
+  exact ⟨⟨1, 0⟩, by decide +kernel, ⟨1/2, by norm_num, by norm_num, by norm_num, by norm_num⟩,
+      ⟨1, by norm_num, by norm_num, by norm_num, by norm_num⟩⟩
+
+/-- [T] per-pair class "consecutive segments": for two segments of positive length, the second
+starting where the first ends (this covers the wrap-around pair last/first of a closed ring), the
+specification accepts the pair exactly when the loop body flags it in neither operand order. -/
+theorem adjacent_pair_agrees (s t : Pt × Pt) (hs : s.1 ≠ s.2) (ht : t.1 ≠ t.2) (hst : s.2 = t.1) :
+    adjacentOk s t s.2 = !pairBad s t ∧ adjacentOk s t s.2 = !pairBad t s :=
+  C14P.adjacent_agree s t hs ht hst
+
+example : adjacentOk (⟨0, 0⟩, ⟨1, 0⟩) (⟨1, 0⟩, ⟨1, 1⟩) ⟨1, 0⟩ = !pairBad (⟨1, 0⟩, ⟨1, 1⟩) (⟨0, 0⟩, ⟨1, 0⟩) :=
+  (adjacent_pair_agrees (⟨0, 0⟩, ⟨1, 0⟩) (⟨1, 0⟩, ⟨1, 1⟩) (by decide +kernel) (by decide +kernel) rfl).2
+
+/-- [T] per-pair class "not consecutive, but chained by coordinates" (the ring revisits a vertex, so
+the loop's coordinate comparison `line.start != other.end && line.end != other.start` skips a pair
+the specification rejects): two segments of positive length that end — or start — at the same
+coordinate are always flagged; this is the neighbouring pair at which such a ring is caught. -/
+theorem shared_end_pair_flagged (s t : Pt × Pt) (hs : s.1 ≠ s.2) (ht : t.1 ≠ t.2)
+    (h : s.2 = t.2 ∨ s.1 = t.1) : pairBad s t = true := by
+  rcases h with h | h
+  · exact C14P.pairBad_end_end s t hs ht h
+  · exact C14P.pairBad_start_start s t hs ht h
+
+example : pairBad (⟨0, 0⟩, ⟨1, 1⟩) (⟨2, 0⟩, ⟨1, 1⟩) = true :=
+  shared_end_pair_flagged _ _ (by decide +kernel) (by decide +kernel) (Or.inl rfl)
+
+/-- [T] dedup interplay: the loop (which the code runs on the ring as given) reports a ring exactly
+when it reports the ring with consecutive repeats removed — a zero-length segment is flagged only
+against a segment through its coordinate, and then a neighbouring segment of positive length is
+flagged too. No hypothesis on the ring. -/
+theorem selfIntersection_dedup (r : List Pt) :
+    hasSelfIntersection r = hasSelfIntersection (dedupConsecutive r) := by
+  have h := C14P.noBad_dedup r
+  rw [← C14P.hsi_false_iff, ← C14P.hsi_false_iff] at h
+  cases h1 : hasSelfIntersection r <;> cases h2 : hasSelfIntersection (dedupConsecutive r) <;> simp_all
+
+/-- [T] `selfIntersection_iff` (DESIGN §7 C14, full statement; the hypothesis of the earlier
+`_partial` form — no two adjacent segments collinear-overlapping — is gone with fix F8): on a
+closed ring that keeps at least 4 coordinates when consecutive repeats are removed (i.e. one on
+which `TooFewPointsInRing` did not fire), `linestring_has_self_intersection` answers `false`
+exactly when the ring is simple in the sense of the specification. Rings with exactly three
+segments and the wrap-around pair are covered; the ring may contain repeated coordinates. -/
+theorem selfIntersection_iff (r : List Pt) (hclosed : r.head? = r.getLast?)
+    (h4 : (dedupConsecutive r).length ≥ 4) : hasSelfIntersection r = false ↔ ringSimple r = true :=
+  C14P.hsi_iff_ringSimple r hclosed h4
+
+example : hasSelfIntersection [⟨0, 0⟩, ⟨1, 0⟩, ⟨1, 0⟩, ⟨1, 1⟩, ⟨0, 0⟩] = false :=
+  (selfIntersection_iff [⟨0, 0⟩, ⟨1, 0⟩, ⟨1, 0⟩, ⟨1, 1⟩, ⟨0, 0⟩] (by decide +kernel) (by decide +kernel)).mpr
+    (by decide +kernel)
+
+/-- bow-tie: rejected by the specification, hence reported by the loop -/
+example : hasSelfIntersection [⟨0, 0⟩, ⟨1, 1⟩, ⟨1, 0⟩, ⟨0, 1⟩, ⟨0, 0⟩] = true := by
+  rw [← Bool.not_eq_false, selfIntersection_iff _ (by decide +kernel) (by decide +kernel)]
+  decide +kernel
+
+/-- [T] one direction needs no hypothesis at all (`ringSimple` itself demands a closed ring of at
+least three segments): a ring the specification accepts is never reported. -/
+theorem ringSimple_not_reported (r : List Pt) (h : ringSimple r = true) : hasSelfIntersection r = false :=
+  C14P.ringSimple_noBad r h
+
+/-- [T] the per-ring pass on a finite, non-empty, closed ring lists no error exactly when the ring
+is simple (`ringSimple` includes: at least 4 coordinates after removing consecutive repeats). -/
+theorem ringErrs_nil_iff_ringSimple (o : Oracle) (role : Role) (q : List Pt) (hne : q ≠ [])
+    (hclosed : q.head? = q.getLast?) :
+    ringErrs o role (q.map XPt.ofPt) = [] ↔ ringSimple q = true := by
+  have hemp : (q.map XPt.ofPt).isEmpty = false := by
+    cases q with
+    | nil => exact absurd rfl hne
+    | cons a t => rfl
+  have hnf : (List.map XPt.ofPt q).zipIdx.flatMap
+      (fun ci => if notFinite ci.1 = true then [PolyErr.nonFinite role ci.2] else []) = [] := by
+    rw [List.flatMap_eq_nil_iff]
+    intro ci hci
+    have hmem := List.mem_zipIdx_iff_getElem?.mp hci
+    have : ci.1 ∈ List.map XPt.ofPt q := List.mem_of_getElem? hmem
+    obtain ⟨p, _, hp⟩ := List.mem_map.mp this
+    rw [← hp, notFinite_ofPt]; simp
+  unfold ringErrs
+  simp only [hemp, Bool.false_eq_true, if_false, hnf, List.append_nil, selfInt, ringToPts?_map]
+  by_cases h4 : (dedupConsecutive q).length < 4
+  · have ht := (tooFew_iff q).mpr h4
+    have hs : ringSimple q = false := by
+      rw [C14P.ringSimple_def, C14P.segs_length]
+      have : ¬ ((dedupConsecutive q).length - 1 ≥ 3) := by omega
+      simp [this]
+    simp [ht, hs]
+  · have ht : tooFew (q.map XPt.ofPt) true = false := by
+      cases h : tooFew (q.map XPt.ofPt) true
+      · rfl
+      · exact absurd ((tooFew_iff q).mp h) h4
+    have hiff := selfIntersection_iff q hclosed (by omega)
+    simp only [ht, Bool.false_eq_true, if_false]
+    cases hh : hasSelfIntersection q
+    · simp [hiff.mp hh]
+    · have : ringSimple q ≠ true := fun e => by rw [hiff.mpr e] at hh; cases hh
+      simp [this]
+
+example : ringErrs ⟨relateSpec, fun _ => false⟩ .ext
+    ([⟨0, 0⟩, ⟨1, 0⟩, ⟨1, 1⟩, ⟨0, 0⟩].map XPt.ofPt) = [] :=
+  (ringErrs_nil_iff_ringSimple _ _ [⟨0, 0⟩, ⟨1, 0⟩, ⟨1, 1⟩, ⟨0, 0⟩] (by simp) (by decide +kernel)).mpr
+    (by decide +kernel)
+
+private theorem selfInt_not_pair (o : Oracle) (q : Poly) (r : Role) :
+    PolyErr.selfInt r ∉ ringPairErrs o q := by
+  simp [ringPairErrs, holePairErrs]
+
+/-- [T] error soundness: `SelfIntersection(role)` names an existing, non-empty ring that is not
+simple according to the specification (or is not finite). No closedness or length hypothesis:
+whenever the loop fires, `ringSimple` is false. -/
+theorem selfInt_sound (o : Oracle) (p : XPoly) (role : Role)
+    (he : PolyErr.selfInt role ∈ polyErrs o p) : polyErrSound p (.selfInt role) = true := by
+  obtain ⟨idx, ring, hring, hm⟩ := ringLocal_mem o p _ he (fun q => selfInt_not_pair o q role)
+  obtain ⟨hr, hne, _, hs⟩ := (selfInt_mem_ringErrs o _ _ _).mp hm
+  subst hr
+  simp only [polyErrSound, getRing_roleOf, hring, hne, Bool.not_false, Bool.true_and]
+  split
+  · rename_i q hq
+    simp only [selfInt, hq] at hs
+    cases hrs : ringSimple q
+    · rfl
+    · rw [ringSimple_not_reported q hrs] at hs; cases hs
+  · rfl
+
+example : polyErrSound ⟨[⟨0, 0⟩, ⟨1, 1⟩, ⟨1, 0⟩, ⟨0, 1⟩, ⟨0, 0⟩].map XPt.ofPt, []⟩ (.selfInt .ext) = true :=
+  selfInt_sound ⟨relateSpec, fun _ => false⟩ _ _ (by decide +kernel)
 
 /-! ## 6. The one-line rules of the other types against the specification -/
 
@@ -578,9 +726,6 @@ theorem lineString_tooFew_iff_spec (r : List Pt) (hne : r ≠ []) :
     have := dedup_pos a t
     omega
 
-private theorem notFinite_ofPt (p : Pt) : notFinite (XPt.ofPt p) = false := by
-  simp [notFinite, XPt.ofPt, XNum.isFinite]
-
 /-- [T] LineString, finite coordinates: the error list is empty (`is_valid`) exactly when the
 specification holds. -/
 theorem lineString_valid_iff_spec (r : List Pt) :
@@ -639,5 +784,134 @@ theorem triangle_valid_iff_spec (a b c : Pt) :
     have hac : a ≠ c := fun e => h (orient_col_of_eq a b c (Or.inr (Or.inl e)))
     have hbc : b ≠ c := fun e => h (orient_col_of_eq a b c (Or.inr (Or.inr e)))
     simp [hab, hac, hbc, h]
+
+/-! ## 7. Ring-versus-ring clauses, with `relate` instantiated by the DE-9IM specification
+
+What follows from the *shape* of `relateParts` alone (the matrix is the maximum over arrangement
+atoms). The shell-versus-hole clause is NOT an unfolding: the code relates the shell polygon with
+the hole as a *LineString* (`is_contains`, `BI = 1`), the specification `polyValidRings` relates
+the hole as a *Polygon* with the shell polygon (`II ≠ F`, `IE = F`, `BE = F`, `dim BB ≤ 0`); their
+agreement rests on the adequacy of the DE-9IM specification (DESIGN S1) and is left to the
+correspondence. Likewise the `→` direction of the area clause needs "`II` of two polygons is `F`
+or `2`" (S1): `holePair_iff_partial`.
+-- full statement kept for the record:
+-- theorem ringPairErrs_nil_iff_polyValidRings (f) (q : Poly) (hrings : all rings ringSimple) :
+--     ringPairErrs ⟨relateSpec, f⟩ q = [] ↔ (the two relate clauses of polyValidRings (Poly.solid q))
+-/
+
+/-- [T] structural: in the DE-9IM specification a cell whose row or column is a boundary never
+has dimension 2 — so the specification's "boundaries meet in points at most" (`dim BB ≤ 0`) is
+exactly the negation of the code's test `BB = 1`. -/
+theorem boundary_cells_never_area (pa pb : Parts) (x y : Pos) (h : x = .onBoundary ∨ y = .onBoundary) :
+    (relateParts pa pb).get x y ≠ .two :=
+  C14P.relateParts_boundary_ne_two pa pb x y h
+
+example : (relateSpec (.polygon ⟨[⟨0, 0⟩, ⟨1, 0⟩, ⟨0, 1⟩, ⟨0, 0⟩], []⟩)
+    (.polygon ⟨[⟨0, 0⟩, ⟨1, 0⟩, ⟨0, 1⟩, ⟨0, 0⟩], []⟩)).bb ≠ .two :=
+  boundary_cells_never_area _ _ .onBoundary .onBoundary (Or.inl rfl)
+
+/-- [T] the line clause, exact: `dimLe0 BB` (specification) ⇔ `BB ≠ 1` (code). -/
+theorem boundaries_meet_in_points_iff (a b : List Pt) :
+    dimLe0 (relateParts (polyOf a) (polyOf b)).bb = !ringsShareLine a b := by
+  rw [Bool.eq_iff_iff, C14P.dimLe0_bb_iff]
+  simp [ringsShareLine]
+
+/-- [T] the ring-versus-ring pass of the Polygon visitor, with `relate` = the specification, lists
+no error exactly when every non-empty hole — as a LineString — is contained in the shell polygon
+(`T*****FF*`) with `BI ≠ 1`, and has `II ≠ 2` and `BB ≠ 1` with every later hole (as polygons). -/
+theorem ringPairErrs_nil_iff_relateSpec (f : XRing → Bool) (q : Poly) :
+    ringPairErrs ⟨relateSpec, f⟩ q = [] ↔
+      ∀ (i : Nat) (hi : List Pt), q.ints[i]? = some hi → hi ≠ [] →
+        isContains (relateParts (polyOf q.ext) ⟨[], [hi], []⟩) = true ∧
+        (relateParts (polyOf q.ext) ⟨[], [hi], []⟩).bi ≠ .one ∧
+        ∀ (j : Nat) (hj : List Pt), i < j → q.ints[j]? = some hj →
+          (relateParts (polyOf hi) (polyOf hj)).ii ≠ .two ∧ (relateParts (polyOf hi) (polyOf hj)).bb ≠ .one :=
+  C14P.ringPairErrs_nil_iff f q
+
+/-- [T] hole-versus-hole clause, completeness side: a pair of holes that satisfies the
+specification's clause (`II = F`, `dim BB ≤ 0` of `polyValidRings`) draws no error. -/
+theorem holePair_no_error_of_spec (f : XRing → Bool) (h1 h2 : List Pt) (i j : Nat)
+    (h : C14P.holePairSpec h1 h2 = true) : holePairErrs ⟨relateSpec, f⟩ h1 i h2 j = [] :=
+  C14P.holePair_spec_imp f h1 h2 i j h
+
+example : holePairErrs ⟨relateSpec, fun _ => false⟩ [⟨0, 0⟩, ⟨1, 0⟩, ⟨0, 1⟩, ⟨0, 0⟩] 0
+    [⟨5, 5⟩, ⟨6, 5⟩, ⟨5, 6⟩, ⟨5, 5⟩] 1 = [] :=
+  holePair_no_error_of_spec _ _ _ _ _ (by decide +kernel)
+
+/-- [T] … in particular a polygon that satisfies the specification's `polyValidRings` draws no
+hole-versus-hole error. -/
+theorem polyValidRings_no_holePair_errors (f : XRing → Bool) (q : Poly)
+    (h : polyValid.polyValidRings q = true) (i j : Nat) (hi hj : List Pt) (hij : i < j)
+    (hgi : q.ints[i]? = some hi) (hgj : q.ints[j]? = some hj) :
+    holePairErrs ⟨relateSpec, f⟩ hi i hj j = [] := by
+  apply holePair_no_error_of_spec
+  simp only [polyValid.polyValidRings, Bool.and_eq_true] at h
+  obtain ⟨_, hall⟩ := h
+  rw [C14P.allPairs_iff] at hall
+  have := hall i j _ _ hij (by rw [List.getElem?_map, hgi]; rfl) (by rw [List.getElem?_map, hgj]; rfl)
+  simpa [hgi, hgj, C14P.holePairSpec] using this
+
+example : holePairErrs ⟨relateSpec, fun _ => false⟩ [⟨1, 1⟩, ⟨2, 1⟩, ⟨1, 2⟩, ⟨1, 1⟩] 0
+    [⟨5, 5⟩, ⟨6, 5⟩, ⟨5, 6⟩, ⟨5, 5⟩] 1 = [] :=
+  polyValidRings_no_holePair_errors _
+    ⟨[⟨0, 0⟩, ⟨9, 0⟩, ⟨9, 9⟩, ⟨0, 9⟩, ⟨0, 0⟩],
+      [[⟨1, 1⟩, ⟨2, 1⟩, ⟨1, 2⟩, ⟨1, 1⟩], [⟨5, 5⟩, ⟨6, 5⟩, ⟨5, 6⟩, ⟨5, 5⟩]]⟩
+    (by decide +kernel) 0 1 _ _ (by omega) rfl rfl
+
+/-- [Tp] hole-versus-hole clause, both directions, given that `II` of the two hole polygons is
+`F` or `2` (true of the point sets; for `relateParts` it is part of S1).
+Full statement: without `hS1`. -/
+theorem holePair_iff_partial (f : XRing → Bool) (h1 h2 : List Pt) (i j : Nat)
+    (hS1 : (relateParts (polyOf h1) (polyOf h2)).ii = .empty ∨ (relateParts (polyOf h1) (polyOf h2)).ii = .two) :
+    holePairErrs ⟨relateSpec, f⟩ h1 i h2 j = [] ↔ C14P.holePairSpec h1 h2 = true :=
+  C14P.holePair_iff_of_area f h1 h2 i j hS1
+
+example : C14P.holePairSpec [⟨0, 0⟩, ⟨2, 0⟩, ⟨0, 2⟩, ⟨0, 0⟩] [⟨0, 0⟩, ⟨2, 0⟩, ⟨0, 2⟩, ⟨0, 0⟩] = false := by
+  rw [← Bool.not_eq_true, ← holePair_iff_partial (fun _ => false) _ _ 0 1 (Or.inr (by decide +kernel))]
+  decide +kernel
+
+/-- [T] error soundness: `IntersectingRingsOnAnArea(a, b)` names two different existing,
+non-empty holes whose interiors intersect according to the specification. -/
+theorem onArea_sound (f : XRing → Bool) (p : XPoly) (a b : Role)
+    (he : PolyErr.onArea a b ∈ polyErrs ⟨relateSpec, f⟩ p) : polyErrSound p (.onArea a b) = true := by
+  obtain ⟨q, hq, i, j, hi, hj, hij, hgi, hgj, hne, hm⟩ :=
+    C14P.holePair_mem_polyErrs f p _ (fun _ => by simp) (fun _ => by simp) (fun _ _ => by simp)
+      (fun _ => by simp) (fun _ => by simp) he
+  obtain ⟨rfl, rfl, hii⟩ := (C14P.onArea_mem_holePairErrs f hi hj i j a b).mp hm
+  have hnej : hj ≠ [] := by
+    intro e
+    rw [e] at hii
+    have := C14P.relateParts_nil_right (polyOf hi) .inside .inside (by simp)
+    rw [show (relateParts (polyOf hi) (polyOf [])).get .inside .inside =
+      (relateParts (polyOf hi) (polyOf [])).ii from rfl, hii] at this
+    cases this
+  have e1 : hi.isEmpty = false := by cases hi <;> simp_all
+  have e2 : hj.isEmpty = false := by cases hj <;> simp_all
+  have e3 : (Role.int i != Role.int j) = true := by simp; omega
+  simp [polyErrSound, hq, getRingQ, hgi, hgj, e1, e2, e3, ringsShareArea, hii]
+
+/-- [T] error soundness: `IntersectingRingsOnALine(int i, int j)` between two holes names two
+different existing, non-empty holes whose boundaries share a line according to the specification.
+(For the shell-versus-hole form `IntersectingRingsOnALine(ext, int k)` see the remark above.) -/
+theorem onLine_holes_sound (f : XRing → Bool) (p : XPoly) (i j : Nat)
+    (he : PolyErr.onLine (.int i) (.int j) ∈ polyErrs ⟨relateSpec, f⟩ p) :
+    polyErrSound p (.onLine (.int i) (.int j)) = true := by
+  obtain ⟨q, hq, i', j', hi, hj, hij, hgi, hgj, hne, hm⟩ :=
+    C14P.holePair_mem_polyErrs f p _ (fun _ => by simp) (fun _ => by simp) (fun _ _ => by simp)
+      (fun _ => by simp) (fun _ => by simp) he
+  obtain ⟨e1, e2, hbb⟩ := (C14P.onLine_mem_holePairErrs f hi hj i' j' _ _).mp hm
+  injection e1 with e1; injection e2 with e2
+  subst e1; subst e2
+  have hnej : hj ≠ [] := by
+    intro e
+    rw [e] at hbb
+    have := C14P.relateParts_nil_right (polyOf hi) .onBoundary .onBoundary (by simp)
+    rw [show (relateParts (polyOf hi) (polyOf [])).get .onBoundary .onBoundary =
+      (relateParts (polyOf hi) (polyOf [])).bb from rfl, hbb] at this
+    cases this
+  have e1 : hi.isEmpty = false := by cases hi <;> simp_all
+  have e2 : hj.isEmpty = false := by cases hj <;> simp_all
+  have e3 : (Role.int i != Role.int j) = true := by simp; omega
+  simp [polyErrSound, hq, getRingQ, hgi, hgj, e1, e2, e3, ringsShareLine, hbb]
 
 end Geo.Proofs.C14
